@@ -244,6 +244,7 @@ func suiteConc(c *Ctx) {
 		runtime.GOMAXPROCS(old)
 		for rs := range results {
 			c.Count("concurrent-ops")
+			c.Direct++
 			if rs.got != rs.exp {
 				mismatches++
 				c.Fail("concurrent-result-differs", fmt.Sprintf("%s: concurrent %q, isolated %q", rs.op, rs.got, rs.exp),
@@ -304,6 +305,7 @@ func suiteCache(c *Ctx) {
 				}
 			}
 			c.Count("cache-ops")
+			c.Direct++
 		}
 		c.NonTrivial(fmt.Sprint("seq", s))
 	}
